@@ -424,7 +424,7 @@ def _guard_m(m):
 def compile_program(desc, out_kind='vector'):
     steps, kinds = desc['steps'], desc['kinds']
 
-    def f(x):
+    def f(x, _peak=None):
         vals = [x]
         for st in steps:
             t = st[0]
@@ -512,6 +512,10 @@ def compile_program(desc, out_kind='vector'):
                 a, w = (vals[st[1]] if st[1] is not None else x), st[2]
                 r = {'write_once': _buf1, 'overwrite': _buf2, 'slot': lambda v: _slot3(v)}[w](a)
                 vals.append(r)
+        if _peak is not None:
+            for v in vals:
+                a_ = np.abs(np.asarray(v, dtype=float))
+                _peak.append(float(np.max(a_)) if a_.size else 0.0)
         # output: combine the last values so that every step contributes
         last = vals[-1]
         acc = None
@@ -528,6 +532,19 @@ def compile_program(desc, out_kind='vector'):
         if vec is None:
             vec = x
         return vec * 1.0 + (acc if acc is not None else 0.0) * np.array([1.0, -0.5, 0.25])
+
+    def peak(x0):
+        """largest |intermediate value| of the program at the plain point x0: the output sums all intermediates, so huge ones
+        cancel there and the rounding of that cancellation dominates any comparison of two evaluation orders"""
+        tr = []
+        try:
+            with np.errstate(all='ignore'):
+                f(np.asarray(x0, dtype=float), tr)
+        except Exception:
+            return float('inf')
+        m = max(tr) if tr else 0.0
+        return m if np.isfinite(m) else float('inf')
+    f.peak = peak
     return f
 
 
